@@ -105,6 +105,8 @@ def gen(rng, tier):
         # the finished queue (it must get nothing)
         sc['early'] = [rng.choice([0, 1, 2]) for _ in range(sc['rounds'] - 1)]
         sc['late_consumer'] = [rng.random() < 0.6 for _ in range(sc['rounds'] - 1)]
+        # 'during': the extra consumer starts iterating while renew() is running (single supplier only, see run())
+        sc['late_mode'] = [rng.choice(['before', 'during']) for _ in range(sc['rounds'] - 1)]
     cfg = swarm(rng, racy=0.2, line=0.4, max_time=600.0)
     return {'scenario': sc, 'sim': cfg}
 
@@ -117,10 +119,10 @@ def shrink(sc):
             yield dict(sc, m=sc['m'] - 1, items=[r[:-1] for r in sc['items']])
         return
     if sc.get('early') or sc.get('late_consumer'):
-        yield {k: v for k, v in sc.items() if k not in ('early', 'late_consumer')}
+        yield {k: v for k, v in sc.items() if k not in ('early', 'late_consumer', 'late_mode')}
     if sc['rounds'] > 1:
         sc2 = dict(sc, rounds=sc['rounds'] - 1, items=sc['items'][:-1])
-        for k in ('early', 'late_consumer'):
+        for k in ('early', 'late_consumer', 'late_mode'):
             if sc2.get(k):
                 sc2[k] = sc2[k][:-1]
         yield sc2
@@ -258,6 +260,7 @@ def run(sim, sc):
         if len(got) != len(set(got)):
             sim.violation('delivery:item-received-twice', {'got': got})
         return {'stop_seen': len(stop_seen)}
+    during = []  # (thread, box, round it may have taken part in)
     for r in range(rounds):
         starts[r].set()
         # wait until all consumers of the round are done, check, then renew
@@ -272,6 +275,15 @@ def run(sim, sc):
                 return {}
             sim.violation('liveness:consumer-iteration-did-not-end', {'round': r, 'received': [len(c) for c in received[r]]})
             return {}
+        for lt, box, r2 in during:
+            if r2 == r:
+                lt.join(50.0)
+                if lt.is_alive() or len(box) != 1 or not isinstance(box[0], list):
+                    sim.violation('late-consumer:started-during-renew-' + ('blocks' if lt.is_alive() else 'raises'), {'round': r, 'got': repr(box)[:200]})
+                    return {}
+                received[r].append(box[0])  # one more consumer of this round (or [] if it still saw the finished round)
+                if box[0]:
+                    sim.count('consumer_started_during_renew_got_items')
         want = sorted((r, si, k) for si in range(m) for k in range(sc['items'][r][si]))
         got = sorted(z for cs in received[r] for z in cs)
         if got != want:
@@ -305,8 +317,16 @@ def run(sim, sc):
                         box.append(repr(e))
                 lt = threading.Thread(target=late_consumer, name='harness-late-consumer', daemon=True)
                 lt.start()
-                lt.join(50.0)
-                if lt.is_alive() or box != [[]]:
+                # With ONE supplier the implementation tolerates a consumer that starts while renew() is running: it sees either the
+                # finished round (nothing) or the next round. (With >= 2 suppliers the unchanged code has a window of its own there -
+                # the half-recycled token queue looks "full" - and the documentation only promises iteration after renew: not generated.)
+                if m == 1 and (sc.get('late_mode') or ['before'] * rounds)[r] == 'during':
+                    during.append((lt, box, r + 1))
+                    sim.count('late_consumer_started_during_renew')
+                    lt = None
+                else:
+                    lt.join(50.0)
+                if lt is not None and (lt.is_alive() or box != [[]]):
                     sim.violation('late-consumer:iterating-a-finished-round-again-' + ('blocks' if lt.is_alive() else 'yields-or-raises'),
                                   {'round': r, 'got': repr(box)[:200]})
                     return {}
